@@ -34,7 +34,7 @@ OWNERS = {
  'src/free5gclib/nas/nasConvert/AmfId.go': ['C17'],
  'src/free5gclib/nas/nasConvert/ProtocolConfigurationOptions.go': ['C17'],
  'src/free5gclib/ngap/ngapConvert/IpAddress.go': ['C17', 'C13'],
- 'src/free5gclib/nas/nas.go': ['C08', 'C09', 'C06'],
+ 'src/free5gclib/nas/nas.go': ['C08', 'C09', 'C10', 'C06'],
  'src/free5gclib/nas/nasTestpacket/NasPdu.go': ['C09', 'C02', 'C01'],
 }
 
